@@ -81,3 +81,9 @@ mod tests {
         Ok(())
     }
 }
+
+#[cfg(noodles_verif)]
+#[doc(hidden)]
+pub fn __verif_read_position(src: &mut &[u8]) -> Result<Option<Position>, DecodeError> {
+    read_position(src)
+}
